@@ -10,6 +10,7 @@ type Job struct {
 	Mode   string // hostile | wellbehaved
 	Driver string // "" (contracts) | sim | rel | frames | tables | alloc
 	Sim    bool   // prove against the master JSON transducer (@sim clauses active)
+	Alloc  bool   // ghost allocation counter clauses (@alloc) active
 	Rel    bool   // relational driver: independence from the scratch parameters
 	Only   string // restrict to one obligation kind without invariant inference (e.g. "frame")
 }
@@ -19,6 +20,15 @@ func relJobs(keys ...string) []Job {
 	for i := range out {
 		out[i].Rel = true
 		out[i].Driver = "rel"
+	}
+	return out
+}
+
+func allocJobs(keys ...string) []Job {
+	out := hostile(keys...)
+	for i := range out {
+		out[i].Alloc = true
+		out[i].Driver = "alloc"
 	}
 	return out
 }
@@ -177,6 +187,61 @@ func properties() map[string]*Property {
 			"sync.Pool (a field of the caller-owned ValueReader) is safe for concurrent use",
 		},
 		Subset: "the classical sufficient condition for race freedom of independent calls: every function of rjson and internal/fp (all of them, found by an SSA scan, not only those under contract) never stores into package-level memory, and every store of the functions under contract goes to a local, to freshly allocated memory, or to memory reachable from its own non-input parameters",
+	}
+	wb := func(keys ...string) []Job {
+		out := simJobs(keys...)
+		for i := range out {
+			out[i].Mode = "wellbehaved"
+		}
+		return out
+	}
+	ps["C07"] = &Property{ID: "C07", Level: "proof",
+		Jobs:   append(wb("handleArrayValues", "handleObjectValues", "HandleArrayValues", "HandleObjectValues"), simJobs("skipFloatDec", "skipFloatExp")...),
+		Labels: []string{"C07"},
+		Extra:  []string{"spec-lemmas"},
+		Assume: append([]string{
+			"well-behaved handler contract (the property's own hypothesis): a handler that returns a nil error returns 0 or the exact end offset VE of the value it was given; 'exact end' is stated on the specification run: at VE the run is in the after-value state of the same context, with the same depth and the same enclosing frames, VE lies inside the input and the byte before VE closes the value (L-closer: a string ends with a quote, an array with ], an object with } - argued on the spec table, not machine-checked). For numbers and literals the machines ignore the offset and nothing is assumed",
+			"nesting: the traversal machines have no depth limit; the property's bound of 10,000 is not needed by the proof (it holds for every depth)",
+		}, specAssume...),
+	}
+	ps["C06"] = &Property{ID: "C06", Level: "proof",
+		Jobs: append(simJobs("ReadStringBytes", "ReadString", "appendRemainderOfString", "unescapeStringContent", "UnescapeStringContent"),
+			hostile("unescapeUnicodeChar", "getu4", "growBytesSliceCapacity", "countWhitespace", "errUnexpectedByteInString")...),
+		Labels: []string{"C06"},
+		Extra:  []string{"spec-lemmas"},
+		Assume: append([]string{
+			"utf8.EncodeRune / utf8.RuneLen / utf16.IsSurrogate / utf16.DecodeRune enter with their exact definitions as assumed contracts (standard library, four small pure functions)",
+			"the string machines are proved in the top-level context (spec state InValue.Str@top, depth 0), which is how ReadString/ReadStringBytes and UnescapeStringContent 'on its own' use them; other contexts are the same sub-automaton and are not re-proved",
+		}, specAssume...),
+		Subset: "grammar and offsets: ReadStringBytes / ReadString succeed exactly when the first token is a well-formed RFC 8259 string (closing quote present, no raw byte below 0x20, only the RFC escapes incl. \\uXXXX with four hex digits; surrogate pairs consumed as 12 bytes) and return the offset just after the closing quote; unescapeStringContent/UnescapeStringContent succeed on the bytes between the quotes of such a token and consume all of them; destination prefix preserved (C16). NOT covered: that the produced bytes equal the RFC decoding of the content (content fold over utf8 encodings; listed as not built in DESIGN.md)",
+	}
+	pureFns := []string{"countWhitespace", "skipFloatExp", "skipFloatDec", "getu4", "NextTokenType", "NextToken", "readNull", "readBool", "ReadNull", "ReadBool", "nullOrBust"}
+	numFns := []string{"ReadUint64", "ReadUint32", "ReadInt64", "ReadInt32", "ReadInt", "ReadUint", "ReadFloat64",
+		"DecodeBool", "DecodeFloat64", "DecodeInt64", "DecodeInt32", "DecodeInt", "DecodeUint64", "DecodeUint32", "DecodeUint"}
+	ps["C19"] = &Property{ID: "C19", Level: "proof",
+		Jobs:   append(hostile(concat(pureFns, numFns)...), hostile("growBytesSliceCapacity", "unescapeUnicodeChar")...),
+		Kinds:  map[string]bool{"ensures": true, "inv-init": true, "inv-preserved": true, "requires@call": true},
+		Labels: []string{"C19"},
+		Assume: []string{
+			"ghost allocation counter: incremented at every make / append growth / []byte<->string conversion / interface boxing / fmt.Errorf / escaping new in the functions under contract; which local variables the compiler keeps on the stack is not modelled (go/ssa's own escape flag is used), and the allocator itself is not modelled",
+			"internal/fp.ParseJSONFloatPrefix performs no heap allocation (assumed contract; its decimal scratch value is a local array)",
+			"NOT covered: SkipValue, SkipValueFast, Valid, HandleArrayValues, HandleObjectValues with a warmed Buffer (their only allocation sites are the stack-growth sites guarded by `top+1 >= len(stack)`, see C20; that a buffer warmed on a document at least as deep makes the guard false needs a depth bound that is not built), and ReadStringBytes / UnescapeStringContent with spare capacity (their contracts state it for growBytesSliceCapacity and unescapeUnicodeChar only)",
+		},
+		Subset: "successful calls of the token, null, bool, integer and float readers and of the numeric/boolean Decode functions (including Decode on a null input) request zero heap bytes: ensures `err == nil ==> ghost_alloc == old(ghost_alloc)` for each, modularly through their callees; growBytesSliceCapacity and unescapeUnicodeChar request nothing when capacity suffices",
+	}
+	c20fns := concat(pureFns, numFns, []string{"growBytesSliceCapacity", "unescapeUnicodeChar", "errUnexpectedByteInString",
+		"skipValue", "skipValueFast", "handleArrayValues", "handleObjectValues", "SkipValue", "SkipValueFast", "HandleArrayValues", "HandleObjectValues",
+		"appendRemainderOfString", "unescapeStringContent", "ReadStringBytes", "rjson.(*ValueReader).ReadObject", "rjson.(*ValueReader).ReadArray"})
+	ps["C20"] = &Property{ID: "C20", Level: "proof",
+		Jobs:   allocJobs(c20fns...),
+		Kinds:  map[string]bool{"ensures": true, "inv-init": true, "inv-preserved": true, "requires@call": true},
+		Labels: []string{"C20"},
+		Assume: []string{
+			"A-growth (Go runtime growslice, assumed): on reallocation the new capacity is at most 2*needed+32 elements, at least 1.25x the old capacity, and at least 2x while the old capacity is below 256 elements",
+			"M-sum (not machine-checked): per-call bounds of the form `bytes requested <= K*consumed + K0` add up to a bound linear in the total input because the calls of a traversal consume disjoint byte ranges; allocations made by handlers (user code, or the nested ValueReader calls, each of which has its own per-call obligation) are not counted in the caller",
+			"maps: make(map, hint) is charged 48*hint bytes; the []interface{} appends of the ValueReader are not modelled",
+		},
+		Subset: "per-call resource contracts on the ghost allocation counter: the four stack machines request at most 256*p+4096 bytes (amortised through the potential 64*(cap-cap0)+8*(len-len0)), scalar readers and Decode functions a constant, string functions a bound in the destination size and the bytes consumed. Three sites violate their bound on the pinned tree and are recorded as known findings F2, F3, F4 (replayed on the real code: /verif/findings/c20_findings_test.go)",
 	}
 	ps["C14"] = &Property{ID: "C14", Level: "proof",
 		Jobs:  relJobs("skipValue", "skipValueFast", "handleArrayValues", "handleObjectValues", "SkipValue", "SkipValueFast", "Valid", "HandleArrayValues", "HandleObjectValues"),
